@@ -80,6 +80,7 @@ func verifReach(tag string)              {}
 func verifNote(tag string)               {}
 func verifYield()                        {}
 func verifQuiesce()                      {}
+func verifHoldTimers(hold bool)          {}
 
 func verifNondetString(tag string, maxLen int) string {
 	return string(verifNondetBytes(tag, maxLen))
